@@ -80,7 +80,7 @@ def explore(rng, tier, replay=None):
         why = field_diff(a[0][-1], b[0][-1])
         return True, "(the implementation's result differs from the reference model: %s)" % why
 
-    ctx = corr.explore(PROP, scripts, judge=judge, signature=signature,
+    ctx = corr.explore(PROP, scripts, judge=judge, signature=signature, model_first=True,
                        rule="every first word whose handler is modelled x N seeded register/memory states x "
                             "boundary-biased second word; one Interpreter::Run(1) on the real Teakra facade vs "
                             "Teakra.cycle; distinct = (handler key, outcome class)",
